@@ -60,6 +60,9 @@ Suggest(w, n) ==
                                                      ELSE st.trial[S][t]]]
       comp == IF Mode = "fresh" THEN CompletedIds(mid) ELSE {t \in CompletedIds(mid) : ~dl[t]}
   IN /\ MaxTrialId(st, S) + k <= MaxId
+     \* which queued trials are taken when the pool is larger than needed is left to the implementation (VizierAtomic,
+     \* Choices); what is delivered does not depend on it, so the model only takes steps where nothing is left to choose
+     /\ (Cardinality(own) >= n \/ Cardinality(pool) <= n - Cardinality(own))
      /\ st' = r.st
      \* stale: ids to be delivered now whose PREVIOUS incarnation was delivered (ghost, for diagnosing id-reuse defects only)
      /\ upd' = IF consulted THEN [consulted |-> TRUE, completed |-> comp, active |-> ActiveIds(mid), stale |-> {t \in comp : reused[t]}] ELSE NoUpd
